@@ -11,12 +11,26 @@ AS = 'tokio::io::util::async_seek_ext::AsyncSeekExt::'
 AR = 'tokio::io::util::async_read_ext::AsyncReadExt::'
 
 
+CLONE_OUT = 'bitar::clone_output::CloneOutput'
+
+
+def out_field(facts):
+    """name of the field of CloneOutput<T> that is the output itself (the one of the parameter type)"""
+    f_ = facts.fields_by_role(CLONE_OUT).get('param') or []
+    return f_[0] if len(f_) == 1 else None
+
+
+def index_field(facts):
+    f_ = facts.fields_by_role(CLONE_OUT).get('bitar::chunk_index::ChunkIndex') or []
+    return f_[0] if len(f_) == 1 else None
+
+
 class LastOp(Rule):
-    """state = last operation on field `inner`: None | ('seek', term) | 'write' | 'read'"""
+    """state = last operation on the output field of CloneOutput: None | ('seek', shown term, fields read) | 'write' | 'read'"""
     init = None
 
-    def __init__(self, b, T):
-        self.b, self.T = b, T
+    def __init__(self, b, T, field):
+        self.b, self.T, self.field = b, T, field
         self.writes = []     # (loc, state before)
         self.reads = []
 
@@ -25,12 +39,13 @@ class LastOp(Rule):
             return st
         gq = t['callee']['q']
         base = b.base_of(t['args'][0])
-        if not base or not any(x[1] == 'inner' for x in base[1]):
+        if not base or not any(x[0] == CLONE_OUT and x[1] == self.field for x in base[1]):
             return st
         if gq == AS + 'seek':
             term = simplify(self.T.of_operand(b, t['args'][1]))
             arith = any(n_[0] == 'binop' or (n_[0] == 'call' and n_[1].split('::')[-1] in ('saturating_add', 'wrapping_add', 'checked_add', 'saturating_sub', 'wrapping_sub')) for n_ in walk(term))
-            return ('seek', show(term)[:120] + (' [arithmetic]' if arith else ''))
+            fields = tuple(sorted({n_[2] for n_ in walk(term) if n_[0] == 'field' and isinstance(n_[2], str)}))
+            return ('seek', show(term)[:120] + (' [arithmetic]' if arith else ''), fields)
         if gq.startswith(AW + 'write'):
             self.writes.append((t['loc'], st))
             return 'write'
@@ -99,6 +114,17 @@ def exit_classes_from(b, T, start):
     return r.out
 
 
+def _reach_blocks(b, start):
+    seen, w = set(), [start]
+    while w:
+        x = w.pop()
+        if x in seen or b.blocks[x].get('cleanup'):
+            continue
+        seen.add(x)
+        w.extend(succs(b.blocks[x]['term']))
+    return seen
+
+
 def run(facts, cg):
     T = Terms(facts)
     instances, findings = [], []
@@ -110,11 +136,14 @@ def run(facts, cg):
 
     # ---------------------------------------------------------------- R-SEEKWRITE (C13): every write/read of the output is preceded by a seek to an explicit offset
     n = 0
+    of = out_field(facts)
+    per_body = {}
     for b in facts.bodies.values():
-        if b.crate != 'bitar' or 'clone_output' not in b.id or b.generated:
+        if b.crate != 'bitar' or not b.id.startswith('bitar::clone_output::') or b.generated or of is None:
             continue
-        r = LastOp(b, T)
+        r = LastOp(b, T, of)
         Explorer(b, r).run()
+        per_body[b.id] = r
         for loc, st in r.writes + r.reads:
             n += 1
             ok = isinstance(st, tuple) and st[0] == 'seek' and 'SeekFrom::Start' in st[1] and '[arithmetic]' not in st[1]
@@ -124,22 +153,28 @@ def run(facts, cg):
         if r.writes or r.reads:
             instances.append({'rule': 'R-SEEKWRITE', 'function': b.q, 'writes': [(l, s[1] if isinstance(s, tuple) else s) for l, s in r.writes],
                               'reads': [(l, s[1] if isinstance(s, tuple) else s) for l, s in r.reads]})
-    if n < 3:
-        finding('R-SEEKWRITE', '-', 'floor', 'expected 1 write and 2 read sites on CloneOutput::inner, found %d (cannot decide)' % n)
+    if n < 3 or of is None:
+        finding('R-SEEKWRITE', '-', 'floor', 'expected write and read sites on the output field of CloneOutput, found %d (cannot decide)' % n)
 
     # ---------------------------------------------------------------- R-EARLYEND (C08): a body that ends early is an error, never a short chunk
+    # Sites are found by what they do, not by what they are called:
+    #  (1) HTTP chunk reader  = a body of module http_reader that dispatches on `None` from polling another stream
+    #  (2) HTTP read_at        = the coroutine of the ArchiveReader::read_at impl in module http_reader
+    #  (3,4) local readers     = the bodies of module io_reader that read (read_buf / poll_read / read)
+    #  (5) first-error stream  = the Stream::poll_next impl in module archive whose Self has a field of its parameter type
+    def reads_something(b_):
+        return any('q' in t_['callee'] and t_['callee']['q'].split('::')[-1] in ('read_buf', 'poll_read', 'read', 'read_exact', 'read_to_end')
+                   and ('AsyncRead' in t_['callee']['q'] or 'io::Read' in t_['callee']['q']) for _, t_ in b_.calls())
+    n_sites = {'http-chunks': 0, 'http-read_at': 0, 'io': 0, 'first-error': 0}
     for b in facts.bodies.values():
-        if b.q.endswith('http_reader::ChunkReader::poll_read'):
-            # the poll of the range request: the `None` arm must return Ready(Some(Err(..)))
-            ok = False
-            for bi in b.live:
-                for st in b.blocks[bi]['stmts']:
-                    if st['k'] == 'assign' and not st['pl']['p'] and st['pl']['l'] == 0 and st['rv']['k'] == 'agg' and st['rv'].get('vname') == 'Ready':
-                        t = simplify(T.of_operand(b, st['rv']['ops'][0]))
-                        if any(n_[0] == 'agg' and n_[2] == 'UnexpectedEnd' for n_ in walk(t)):
-                            ok = True
-            # path form: when the body stream of the current request ends (`None`) while the reader still waits for bytes of a
-            # chunk, every way out is an error item - never the end of the chunk stream, never a chunk
+        if b.generated or b.crate != 'bitar':
+            continue
+        par = facts.original.get(b.raw.get('parent') or '')
+        in_http = b.id.startswith('bitar::archive_reader::http_reader::')
+        in_io = b.id.startswith('bitar::archive_reader::io_reader::')
+        if in_http and b.raw['kind'] != 'Closure' or (in_http and b.raw.get('coroutine')):
+            # (1) path form: when the body stream of the current request ends (`None`) while the reader still waits for bytes of
+            # a chunk, every way out is an error item - never the end of the chunk stream, never a chunk
             ends = []
             for sbi in b.live:
                 sw = b.blocks[sbi]['term']
@@ -153,36 +188,69 @@ def run(facts, cg):
                         if pty.get('adt') == 'core::option::Option' and (has_call(term, 'poll_next_unpin') or has_call(term, 'Stream::poll_next')) \
                                 and 0 in sw['vals']:
                             ends.append((sbi, sw['targets'][sw['vals'].index(0)]))
-            classes = set()
-            for sbi, tgt in ends:
-                classes |= exit_classes_from(b, T, tgt)
-            instances.append({'rule': 'R-EARLYEND', 'function': b.q, 'early_end_is_error': ok, 'body_end_edges': len(ends), 'exits_after_body_end': sorted(classes)})
-            if not ok or not ends:
-                finding('R-EARLYEND', b.q, 'http-chunks', 'an HTTP body that ends before the chunk is complete is not turned into UnexpectedEnd')
-            elif classes - {'Err'}:
-                finding('R-EARLYEND', b.q, 'http-chunks-not-always-error', 'when the HTTP body ends while chunk data is still expected the reader can leave with %s '
-                        'instead of an error: the remaining chunks are silently dropped' % sorted(classes - {'Err'}))
-        if b.q.endswith('::read_at::{closure#0}') and 'http_reader' in b.id:
+            if ends:
+                n_sites['http-chunks'] += 1
+                classes = set()
+                for sbi, tgt in ends:
+                    classes |= exit_classes_from(b, T, tgt)
+                instances.append({'rule': 'R-EARLYEND', 'function': b.q, 'body_end_edges': len(ends), 'exits_after_body_end': sorted(classes)})
+                if classes - {'Err'}:
+                    finding('R-EARLYEND', b.q, 'http-chunks-not-always-error', 'when the HTTP body ends while chunk data is still expected the reader can leave with %s '
+                            'instead of an error: the remaining chunks are silently dropped' % sorted(classes - {'Err'}))
+        if b.raw.get('coroutine') and par is not None and par.q.endswith(' as bitar::archive_reader::ArchiveReader>::read_at') and in_http:
+            n_sites['http-read_at'] += 1
             ok = any(st['k'] == 'assign' and st['rv']['k'] == 'agg' and st['rv'].get('vname') == 'UnexpectedEnd'
                      for bi in b.live for st in b.blocks[bi]['stmts'])
             instances.append({'rule': 'R-EARLYEND', 'function': b.q, 'early_end_is_error': ok})
             if not ok:
                 finding('R-EARLYEND', b.q, 'http-read_at', 'a short HTTP response to read_at is not turned into UnexpectedEnd')
-        if ('io_reader' in b.id) and (b.q.endswith('::read_at::{closure#0}') or b.q.endswith('IoChunkReader::poll_chunk')):
+        if in_io and reads_something(b):
+            n_sites['io'] += 1
             ok = any('UnexpectedEof' in show(simplify(T.of_rvalue(b, st['rv'], 0)))
                      for bi in b.live for st in b.blocks[bi]['stmts'] if st['k'] == 'assign') or \
                 any(any(a['k'] == 'const' and 'UnexpectedEof' in str(a.get('s')) for a in t['args']) for bi, t in b.calls())
             instances.append({'rule': 'R-EARLYEND', 'function': b.q, 'early_end_is_error': ok})
             if not ok:
                 finding('R-EARLYEND', b.q, 'io-eof', 'a read of zero bytes before the chunk is complete is not turned into UnexpectedEof')
-        if b.q.endswith('as futures_core::stream::Stream>::poll_next') and 'StreamUntilFirstError' in b.q:
-            sets = [st for bi in b.live for st in b.blocks[bi]['stmts'] if st['k'] == 'assign' and st['pl']['p'] and st['pl']['p'][-1].get('n') == 'end'
-                    and st['rv']['k'] == 'use' and st['rv']['op'].get('int') == 1]
-            instances.append({'rule': 'R-EARLYEND', 'function': b.q, 'sets_end_flag': len(sets)})
-            if not sets:
+        if b.q.endswith(' as futures_core::stream::Stream>::poll_next') and b.id.startswith('bitar::archive::'):
+            self_ty = b.q[1:b.q.index(' as ')]
+            roles = facts.fields_by_role(self_ty)
+            if not roles.get('param'):
+                continue
+            n_sites['first-error'] += 1
+            state_fields = [f_ for k_, v_ in roles.items() if k_ != 'param' for f_ in v_]
+            # (a) a state field is written on every path that has seen an Err item of the inner stream
+            err_edges = []
+            for sbi in b.live:
+                sw = b.blocks[sbi]['term']
+                if sw['k'] != 'switch' or sw['op']['k'] not in ('copy', 'move'):
+                    continue
+                for d_ in b.defs().get(sw['op']['pl']['l'], []):
+                    if d_[0] == 'assign' and d_[1]['rv']['k'] == 'discr' and _place_ty(b, d_[1]['rv']['pl']).get('adt') == 'core::result::Result' and 1 in sw['vals']:
+                        err_edges.append(sw['targets'][sw['vals'].index(1)])
+            store_blocks = {bi for bi in b.live for st in b.blocks[bi]['stmts']
+                            if st['k'] == 'assign' and st['pl']['p'] and st['pl']['p'][-1]['k'] == 'field' and st['pl']['p'][-1].get('n') in state_fields}
+            from .r_readers import _all_paths_hit
+            remembered = bool(err_edges) and all(_all_paths_hit(b, e, store_blocks) for e in err_edges)
+            # (b) that state is looked at before the inner stream is polled, with a way out that ends the stream
+            ends_early = False
+            polls = [bi for bi, t in b.calls() if 'q' in t['callee'] and ('poll_next' in callee_q(t))]
+            for sbi in b.live:
+                sw = b.blocks[sbi]['term']
+                if sw['k'] != 'switch':
+                    continue
+                cterm = simplify(T.of_operand(b, sw['op']))
+                if any(has_field(cterm, f_) for f_ in state_fields):
+                    for tgt in set(sw['targets']) | {sw['otherwise']}:
+                        reach = _reach_blocks(b, tgt)
+                        if not (reach & set(polls)) and 'End' in exit_classes_from(b, T, tgt):
+                            ends_early = True
+            instances.append({'rule': 'R-EARLYEND', 'function': b.q, 'state_fields': state_fields, 'error_remembered': remembered, 'ends_after_error': ends_early})
+            if not (remembered and ends_early):
                 finding('R-EARLYEND', b.q, 'first-error-flag', 'the chunk stream does not stop after its first error')
-    if sum(1 for i in instances if i['rule'] == 'R-EARLYEND') < 5:
-        finding('R-EARLYEND', '-', 'floor', 'expected 5 early-end sites (http chunks, http read_at, io read_at, io chunks, first-error stream): cannot decide')
+    missing = [k for k, v in n_sites.items() if v < (2 if k == 'io' else 1)]
+    if missing:
+        finding('R-EARLYEND', '-', 'floor', 'early-end sites not found: %s (http chunks, http read_at, two local readers, first-error stream): cannot decide' % missing)
 
     # ---------------------------------------------------------------- R-MAGIC (C17): both file magics are accepted
     for b in facts.bodies.values():
@@ -205,52 +273,66 @@ def run(facts, cg):
                         finding('R-MAGIC', b.q, 'match-rejected', 'a matching file magic can still be rejected')
 
     # ---------------------------------------------------------------- R-KEYLEN (C02): index build and query truncate with the same field
+    klen = (facts.fields_by_role('bitar::chunk_index::ChunkIndex').get('usize') or [None])
+    klen = klen[0] if len(klen) == 1 else None
+    if klen is None:
+        finding('R-KEYLEN', '-', 'anchor', 'ChunkIndex has no single usize field that could be the key length (cannot decide)')
     for name in ('add_chunk', 'remove', 'contains'):
         for b in facts.bodies.values():
-            if b.q == 'bitar::chunk_index::ChunkIndex::' + name:
+            if b.q == 'bitar::chunk_index::ChunkIndex::' + name and klen is not None:
                 ok = False
                 for bi in b.live:
                     for st in b.blocks[bi]['stmts']:
                         if st['k'] == 'assign':
                             t = simplify(T.of_rvalue(b, st['rv'], 0))
-                            if has_field(t, 'hash_length') or (isinstance(t, tuple) and t[0] == 'agg' and has_field(t, 'hash_length')):
+                            if has_field(t, klen) or (isinstance(t, tuple) and t[0] == 'agg' and has_field(t, klen)):
                                 ok = True
                     tt = b.blocks[bi]['term']
                     if tt['k'] == 'call':
                         for a in tt['args']:
-                            if has_field(simplify(T.of_operand(b, a)), 'hash_length'):
+                            if has_field(simplify(T.of_operand(b, a)), klen):
                                 ok = True
-                instances.append({'rule': 'R-KEYLEN', 'function': b.q, 'uses_index_hash_length': ok})
+                instances.append({'rule': 'R-KEYLEN', 'function': b.q, 'uses_index_key_length': ok, 'key_length_field': klen})
                 if not ok:
                     finding('R-KEYLEN', b.q, 'key-length', 'ChunkIndex::%s does not key by the index hash length: build and query would disagree' % name)
 
     # ---------------------------------------------------------------- R-COPYARM (C03): the copy executor uses the fields of the same op
+    # in the body that executes the reorder operations: what is read is read at the operation's `source`, into a buffer of the
+    # operation's `size`, and what is written is written at the operation's `dest` (the seek that precedes each access decides)
+    n_exec = 0
     for b in facts.bodies.values():
-        if b.q.endswith('CloneOutput::reorder_in_place::{closure#0}') or (b.raw.get('parent') or '').endswith('reorder_in_place') and b.raw['coroutine']:
-            roles = {}
-            for bi, t in b.calls():
-                if 'q' not in t['callee']:
-                    continue
-                gq = t['callee']['q']
-                q = callee_q(t)
-                def fields_of(op):
-                    term = simplify(T.of_operand(b, op))
-                    return sorted({n_[2] for n_ in walk(term) if n_[0] == 'field' and isinstance(n_[2], str)})
-                if gq == AS + 'seek':
-                    roles.setdefault('seek', []).append(fields_of(t['args'][1]))
-                if q.endswith('BytesMut::resize'):
-                    roles.setdefault('resize', []).append(fields_of(t['args'][1]))
-                if q.endswith('CloneOutput::write_offset'):
-                    roles.setdefault('write', []).append(fields_of(t['args'][1]))
-            instances.append({'rule': 'R-COPYARM', 'function': b.q, 'roles': roles})
-            def all_have(role, what):
-                return roles.get(role) and all(what.lstrip('.') in s for s in roles[role])
-            if not all_have('seek', '.source') :
-                finding('R-COPYARM', b.q, 'seek-role', 'a chunk is not read from the source offset of its own reorder operation (%s)' % roles.get('seek'))
-            if not all_have('resize', '.size'):
-                finding('R-COPYARM', b.q, 'size-role', 'the copy buffer is not sized with the size of its own reorder operation (%s)' % roles.get('resize'))
-            if not all_have('write', '.dest'):
-                finding('R-COPYARM', b.q, 'dest-role', 'a moved chunk is not written to the destinations of its own reorder operation (%s)' % roles.get('write'))
+        if not b.id.startswith('bitar::clone_output::') or not any('q' in t['callee'] and callee_q(t).endswith('ChunkIndex::reorder_ops') for _, t in b.calls()):
+            continue
+        r = per_body.get(b.id)
+        if r is None:
+            continue
+        n_exec += 1
+        rd = [st[2] if isinstance(st, tuple) else () for _, st in r.reads]
+        wr = [st[2] if isinstance(st, tuple) else () for _, st in r.writes]
+        sizes = []
+        for bi, t in b.calls():
+            if 'q' in t['callee'] and callee_q(t).endswith('BytesMut::resize'):
+                term = simplify(T.of_operand(b, t['args'][1]))
+                sizes.append(sorted({n_[2] for n_ in walk(term) if n_[0] == 'field' and isinstance(n_[2], str)}))
+        # a write through a still separate primitive: its offsets argument
+        for bi, t in b.calls():
+            d_ = t['callee'].get('rdef') or t['callee'].get('def')
+            if d_ in per_body and per_body[d_].writes and d_ != b.id:
+                for a in t['args'][1:]:
+                    term = simplify(T.of_operand(b, a))
+                    fs = tuple(sorted({n_[2] for n_ in walk(term) if n_[0] == 'field' and isinstance(n_[2], str)}))
+                    if fs:
+                        wr.append(fs)
+                        break
+        instances.append({'rule': 'R-COPYARM', 'function': b.q, 'read_seeks': rd, 'write_seeks': wr, 'buffer_sizes': sizes})
+        if not rd or not all('source' in x for x in rd):
+            finding('R-COPYARM', b.q, 'seek-role', 'a chunk is not read from the source offset of its own reorder operation (%s)' % rd)
+        if not sizes or not all('size' in x for x in sizes):
+            finding('R-COPYARM', b.q, 'size-role', 'the copy buffer is not sized with the size of its own reorder operation (%s)' % sizes)
+        if not wr or not all('dest' in x for x in wr):
+            finding('R-COPYARM', b.q, 'dest-role', 'a moved chunk is not written to the destinations of its own reorder operation (%s)' % wr)
+    if n_exec < 1:
+        finding('R-COPYARM', '-', 'floor', 'the executor of the reorder operations was not found (cannot decide)')
 
     # ---------------------------------------------------------------- R-HASHRANGE (C04): the header checksum covers everything before it
     for b in facts.bodies.values():
